@@ -67,6 +67,22 @@ def live (repos : List Repo) (d : Doc) : Bool :=
 def search (repos : List Repo) (docs : List Doc) (m : Doc → Bool) : List Doc :=
   docs.filter fun d => live repos d && m d
 
+/-- `indexData.Search` with `SearchOptions.ShardRepoMaxMatchCount = limit` (0 = no limit): the document loop with its
+    per-repository counter.  `w d = none`: the query does not match `d`; `w d = some k`: it matches with `k` line/chunk
+    matches (`repoMatchCount += len(LineMatches) + ranges`).  `last`/`cnt` are `lastRepoID`/`repoMatchCount`.
+    Every document — also the first one of the next repository after documents were skipped for the limit — passes the
+    tombstone and file-tombstone guards before anything else. -/
+def searchLim (repos : List Repo) (limit : Nat) (w : Doc → Option Nat) : List Doc → Nat → Nat → List Doc
+  | [], _, _ => []
+  | d :: rest, last, cnt =>
+    if !live repos d then searchLim repos limit w rest last cnt
+    else if decide (limit > 0) && decide (cnt ≥ limit) && d.repo == last then searchLim repos limit w rest last cnt
+    else
+      let cnt' := if last != d.repo then 0 else cnt
+      match w d with
+      | none => searchLim repos limit w rest d.repo cnt'
+      | some k => d :: searchLim repos limit w rest d.repo (cnt' + k)
+
 /-- queries as far as `List` distinguishes them -/
 inductive Q where
   | const (b : Bool)
